@@ -820,6 +820,9 @@ func ConvertToObjectSchema(typeOrData any) (Object, bool) {
 		return i.GetObject(), true
 	case *ScopeSchema:
 		return i.RootObject(), true
+	case Scope:
+		// A scope of another Go type, like TypedScopeSchema: it stands for its root object, too.
+		return i.RootObject(), true
 	}
 	// Try extracting the inlined ObjectSchema for types that have an ObjectSchema, like TypedObjectSchema.
 	value := reflect.ValueOf(typeOrData)
